@@ -325,6 +325,10 @@ def run(chk):
     # signals that carry a flags value (QFlags<T>, passed by value): the signal pointers of the connections must name the declared parameter lists
     docs.append(("flagsignal", P.HEAD + "  TSource { id: t0; onOptsPicked: a.poke() }\n  TSource { id: t1; onOptsAndText: function(o: TSource.Opts, s: QString) { a.text = s } }\n"
                  "  TSource { id: t2; onModed: a.poke(); onOptsPicked: { a.opts = a.opts | TSource.OptX } }\n}\n", [VERIF_METATYPES], True))
+    # callbacks whose last expression statement is a constant (F24: the empty list used to be printed as `static_cast<void>({})`)
+    docs.append(("constcompletion", P.HEAD + "  TSource { id: t0; onPlain: { a.poke(); [] } }\n  TSource { id: t1; onPlain: { a.poke(); 1 } }\n  TSource { id: t2; onPlain: { a.poke(); \"s\" } }\n"
+                 "  TSource { id: t3; onPlain: { if (a.flag) { null } else { true } } }\n  TSource { id: t4; onPlain: { a.poke(); TSource.ModeA } }\n  TSource { id: t5; onPlain: { [\"x\"] } }\n"
+                 "  TSource { id: t6; onPlain: { a.ival } }\n  TSource { id: t7; onPlain: { 1.5 } }\n}\n", [VERIF_METATYPES], True))
     docs.append(("ctxquote", P.HEAD + "  TSource { id: t0; text: a.flag ? qsTr(\"x\") : a.text }\n}\n", [VERIF_METATYPES], True))
     for n, g in enumerate(GADGET_DOCS):
         docs.append(("gadget%d" % n, g, [QT5_METATYPES, VERIF_T_METATYPES], False))
@@ -343,7 +347,7 @@ def run(chk):
         res = translate([{"id": name, "src": qml, "type_name": tn, "modes": ["generate"], "lowercase": not keep}], metatypes=mts, procs=1)
         run_ = res[name]["generate"]
         if run_.get("panic") or not P.is_accepted(run_):
-            if name.startswith(("bind", "hand", "wide", "collide", "observers", "minmax", "shiftu", "empty", "uninit", "keepcase", "flagsignal")):
+            if name.startswith(("bind", "hand", "wide", "collide", "observers", "minmax", "shiftu", "empty", "uninit", "keepcase", "flagsignal", "constcompletion")):
                 raise ToolError("document %s not accepted: %s" % (name, json.dumps(run_.get("diags"))[:600] + str(run_.get("panic"))))
             continue
         todo.append((name, qml, tn, run_, comp))
